@@ -1,4 +1,5 @@
 import CifModel.Lemmas.ParserStoreOps
+import CifModel.Lemmas.ParserTraceInv
 import CifModel.Model.ParserStoreOps
 import CifModel.Props.C03
 import CifModel.Props.C04
@@ -17,6 +18,8 @@ import CifModel.Props.C04
     * `C03_store_ops_documented`: those effects are the DOCUMENTED functions of Spec/DataModel.lean (written from cif.h by the store
       group) — set_value and add_packet on consistent, rectangular containers (`C03_consistent_after`), block / frame creation
       for a code not in use;
+    * `C03_consistent_after_every_call`: the target is consistent and rectangular after EVERY recorded call (every prefix of the
+      trace), so `C03_set_value_calls_documented`: every set_value of every parse is the documented function, no premise left;
     * `C03_store_step_mkBlock`: for block creation the composition with the store model's API function (through C04_refines_create_block).
   NOT proved: `C03_parser_store_refines_full` — running the translated history (`storeOps`) through `Store.step` from a new CIF ends
   with every call CIF_OK in a store whose abstraction `Store.abs` is the parser model's CIF.  It is EXECUTED by the model driver on
@@ -55,6 +58,30 @@ theorem C03_store_ops_documented (o : Opts) :
    fun l vals hn hlen hne hs => addPkt_spec o.norm l vals hn hlen hne hs,
    fun cif code lenient h => mkBlock_spec o cif code lenient h,
    fun c code h => mkFrame_spec o c code h⟩
+
+/-- **C03_consistent_after_every_call** — not only when the parse ends: after EVERY store call a parse makes (every prefix of the
+    recorded trace, replayed on the initial target) the target is consistent (`OkCif`) and rectangular (`RectCif`), for every option
+    record, policy and input, from every consistent rectangular initial target. -/
+theorem C03_consistent_after_every_call (o : Opts) (pol : Policy) (pre : Cif) (units : Str) (h : OkCif o pre) (hr : RectCif pre)
+    (k : Nat) :
+    OkCif o (((storeTrace o pol pre units).take k).foldl (fun c op => op.apply o c) pre) ∧
+    RectCif (((storeTrace o pol pre units).take k).foldl (fun c op => op.apply o c) pre) :=
+  trace_prefix_okR o pol pre units ⟨h, hr⟩ k
+
+/-- **C03_set_value_calls_documented** — hence every cif_container_set_value a parse makes does to the target, in the state in which
+    it is made, exactly what the DOCUMENTED function does (Spec/DataModel `Container.specSetValue`, applied to the container the
+    call addresses): no premise left on the state. -/
+theorem C03_set_value_calls_documented (o : Opts) (pol : Policy) (pre : Cif) (units : Str) (h : OkCif o pre) (hr : RectCif pre)
+    (k : Nat) (path : Path) (n : Str) (v : V) (hk : (storeTrace o pol pre units)[k]? = some (SOp.setVal path n v)) :
+    ((storeTrace o pol pre units).take (k + 1)).foldl (fun c op => op.apply o c) pre =
+      updIn o.norm (fun c => c.specSetValue o.norm (o.norm n) n v) path
+        (((storeTrace o pol pre units).take k).foldl (fun c op => op.apply o c) pre) := by
+  have hpre := trace_prefix_okR o pol pre units ⟨h, hr⟩ k
+  have hstep : (storeTrace o pol pre units).take (k + 1) = (storeTrace o pol pre units).take k ++ [SOp.setVal path n v] := by
+    rw [List.take_add_one, hk]; rfl
+  rw [hstep, List.foldl_append]
+  simp only [List.foldl_cons, List.foldl_nil, SOp.apply]
+  exact updIn_congr_ok o _ _ (fun c hc hrc => setValueC_spec o n v c hc hrc) path _ hpre.1.2 hpre.2
 
 /-- **FULL statement (not proved; executed on every generated input, see the head of the file)**: the calls of a parse into a
     new CIF, run through the store model, all succeed and build exactly the CIF the parser model returns. -/
